@@ -34,8 +34,9 @@ func vExplorerCopy(K int) *vExplorer { return vNewExplorer(K) }
 
 // VTwoReplicas (C19): the requests replica B receives in a cycle over [A, B] equal those of a
 // cycle over [B] alone, whatever A looks like and however A fails. K = 1 so that B's outcome does
-// not depend on iteration order. nA: shards of A (1 or 2), nB: shards of B.
-func VTwoReplicas(nA, nB int) {
+// not depend on iteration order. nA: shards of A (1 or 2), nB: shards of B; envA: environment
+// bits of replica A (16 = concrete loads).
+func VTwoReplicas(nA, nB, envA, envB int) {
 	const K = 1
 	opt := vOption()
 	vMargin = opt
@@ -50,9 +51,9 @@ func VTwoReplicas(nA, nB int) {
 		ex := vExplorerCopy(K) // the explorer's knowledge as it was before the cycle
 		var ms []shard.Manager
 		if withA {
-			ms = append(ms, vReplica("a", nA, K, 0, true))
+			ms = append(ms, vReplica("a", nA, K, envA, true))
 		}
-		b := vReplica("b", nB, K, 0, false)
+		b := vReplica("b", nB, K, envB, false)
 		ms = append(ms, b)
 		c := NewCoordinator(opt, &vReplicas{ms: ms}, vConfig, ex.get, getActive, prometheus.NewRegistry(), vLogger())
 		crashed := zzv.Crashed(func() { _ = c.runOnce() })
